@@ -270,8 +270,8 @@ class SolverWrapper:
         
         # Normalize bounds to per-index arrays when necessary
         def _materialize_bounds(param, default_value, param_name):
-            # scalar
-            if isinstance(param, (int, float)):
+            # scalar (also a numpy scalar, which is neither int nor float)
+            if isinstance(param, (int, float, np.number)):
                 return [float(param)] * len(indexes)
             # dict mapping index -> value
             if isinstance(param, dict):
